@@ -1544,3 +1544,12 @@ for (_vid, _prop, _rules, _seed, _note) in (
         ('consumer-count-u16', 'C12', ['W7'], 'C12-r8', 'ReaderMeta.num_consumers narrowed to AtomicU16')):
     VARIANTS.append({'id': _vid, 'property': _prop, 'expect': _rules, 'edits': [], 'kind': 'violating', 'note': _note,
                      'patch': _os.path.join(_os.path.dirname(_os.path.dirname(_os.path.abspath(__file__))), 'seeded', _seed, 'patch.diff')})
+
+# round-9 misses
+for (_vid, _prop, _rules, _seed, _note) in (
+        ('max-diff-u16', 'C06', ['P15n'], 'C06-r9', 'the stream scan accumulates the largest lag in a u16'),
+        ('start-free-needs-quiet-signal', 'C17', ['P12f'], 'C17-r9', 'a new reclamation cycle only when the signal word is clear (never again once the no-reader bit is set)'),
+        ('recheck-count-vs-index', 'C18', ['P14'], 'C18-r9', 'try_recv re-checks the position against the masked slot index and retries'),
+        ('recv-view-ends-on-writers-zero', 'C01', ['P6b'], 'C01-r9', 'recv_view reports the end on writers==0 without looking at the slot again')):
+    VARIANTS.append({'id': _vid, 'property': _prop, 'expect': _rules, 'edits': [], 'kind': 'violating', 'note': _note,
+                     'patch': _os.path.join(_os.path.dirname(_os.path.dirname(_os.path.abspath(__file__))), 'seeded', _seed, 'patch.diff')})
